@@ -1,5 +1,6 @@
 import FractopoModel.Basic.Wire
 import FractopoModel.Generated.DetermineIntersect
+import FractopoModel.Generated.IntersectsLoop
 /-! Runs the REGENERATED `determine_intersect` (translator validation, stream S12-generated). -/
 open Wire
 
@@ -12,6 +13,23 @@ def gintersect (a : Args) : Option String := do
     | .ok (x, y) => s!"sets={x}{y}"
     | .error _ => "sets=error")
 
+/-- `gintloop names=a,b nodes=<t1:t2:class:res;…>` with res = `ab` | `ba` | `-` (determine_intersect raises): the regenerated node loop of
+`determine_intersects`; nodes are their positions -/
+def gintloop (a : Args) : Option String := do
+  let names ← match ((a.get? "names").getD "").splitOn "," with | [x, y] => some (x, y) | _ => none
+  let toks := (((a.get? "nodes").getD "").splitOn ";").filter (· ≠ "")
+  let rows : List (Bool × Bool × String × String) ← toks.mapM fun t => match t.splitOn ":" with
+    | [t1, t2, c, r] => do some (← parseBool? t1, ← parseBool? t2, c, r)
+    | _ => none
+  let arr := rows.toArray
+  let res : Nat → Option (String × String) := fun i => match (arr.getD i (false, false, "", "-")).2.2.2 with
+    | "ab" => some (names.1, names.2) | "ba" => some (names.2, names.1) | _ => none
+  let out := Gen.determine_intersects_rows (fun (i : Nat) => (arr.getD i (false, false, "", "-")).1) (fun i => (arr.getD i (false, false, "", "-")).2.1)
+    (fun i _ _ _ => res i) names (List.range rows.length) (rows.map fun r => r.2.2.1)
+  some (match out with
+    | .error e => s!"err={e}"
+    | .ok rs => s!"rows={";".intercalate (rs.map fun r => s!"{r.1}:{r.2.1}:{r.2.2.1.1},{r.2.2.1.2}:{showBool r.2.2.2}")}")
+
 def dispatch (line : String) : String :=
   let toks := (line.trimAscii.toString.splitOn " ").filter (· ≠ "")
   match toks with
@@ -21,6 +39,7 @@ def dispatch (line : String) : String :=
     let r : Option String :=
       match cmd with
       | "intersect" => gintersect a
+      | "gintloop" => gintloop a
       | _ => some s!"error=unknown-command:{cmd}"
     r.getD "error=bad-arguments"
 
